@@ -243,7 +243,7 @@ class MPUChunk:
 
         if self.left_data:
             assert len(self.left_data) >= write.min_write_sz
-            partId = 1 if leftPartId is None else leftPartId
+            partId = write.min_part if leftPartId is None else leftPartId
             self.parts.insert(0, write(partId, self.left_data))
             bytes_written += len(self.left_data)
             self.left_data = bytearray()
@@ -489,13 +489,16 @@ def _finalizer_dask_op(
     if footer_bytes:
         _root.append(footer_bytes)
 
+    # data parts start at ``min_part + 1``, first allowed id is for header and left-over bytes
+    first_part = 1 if write is None else write.min_part
+
     if hdr_bytes:
-        hdr = MPUChunk(1, 1)
+        hdr = MPUChunk(first_part, 1)
         hdr.append(hdr_bytes)
         _root = MPUChunk.merge(hdr, _root)
 
     if write is None:
         return _root
 
-    _, rr = _root.flush(write, leftPartId=1, finalise=True)
+    _, rr = _root.flush(write, leftPartId=first_part, finalise=True)
     return rr
